@@ -8,6 +8,7 @@ import (
 	"encoding/base64"
 	"fmt"
 	"io"
+	"regexp"
 	"strings"
 	"testing"
 	"time"
@@ -43,7 +44,9 @@ var c13Defects = []Defect{
 	{Name: "issued-future-offset", Param: "1800/0/offsetneg"}, {Name: "issued-future-offset", Param: "1800/0/offset2"}, {Name: "noa-past-offset", Param: "1800/0/offset2"}, {Name: "noa-past-offset", Param: "1800/0/offsetneg"},
 	{Name: "issued-abs", Param: "9999-12-31T23:59:59Z"}, {Name: "issued-abs", Param: "2400-01-01T00:00:00Z"}, {Name: "noa-abs", Param: "1601-01-01T00:00:00Z"}, {Name: "noa-abs", Param: "0001-01-01T00:00:00Z"},
 	{Name: "issued-absent"}, {Name: "id-absent"},
-	{Name: "bad-base64"}, {Name: "bad-deflate"}, {Name: "truncated-xml"}, {Name: "not-xml"}, {Name: "wrong-root", Param: "AuthnRequest"}, {Name: "unknown-encoding", Param: "urn:example:enc"},
+	{Name: "bad-base64"}, {Name: "bad-deflate"}, {Name: "truncated-xml"}, {Name: "not-xml"}, {Name: "wrong-root", Param: "AuthnRequest"},
+	// not well-formed in ways a lenient tokenizer recovers from
+	{Name: "unquoted-attr"}, {Name: "attr-without-value"}, {Name: "bad-entity", Param: "&nbsp;"}, {Name: "bad-entity", Param: "&copy;"}, {Name: "bad-entity", Param: "a & b"}, {Name: "bad-entity", Param: "&#xZZ;"}, {Name: "unknown-encoding", Param: "urn:example:enc"},
 	{Name: "empty-samlrequest"},
 }
 
@@ -141,6 +144,8 @@ func genC13Case(t *rapid.T) C13Case {
 	return c
 }
 
+var reVersionAttr = regexp.MustCompile(`Version\s*=\s*["']2\.0["']`)
+
 func c13Render(c C13Case, now time.Time) obs.HTTPReq {
 	tree := c.Req.Rendered(now).Tree(c.Style)
 	for _, d := range c.Defects {
@@ -155,6 +160,27 @@ func c13Render(c C13Case, now time.Time) obs.HTTPReq {
 			x = x[:len(x)*2/3]
 		case "not-xml":
 			x = []byte("logout please")
+		case "unquoted-attr":
+			if loc := reVersionAttr.FindIndex(x); loc != nil {
+				x = append(append(append([]byte(nil), x[:loc[0]]...), []byte("Version=2.0")...), x[loc[1]:]...)
+			} else if loc := reFirstStartTag.FindSubmatchIndex(x); loc != nil {
+				x = append(append(append([]byte(nil), x[:loc[2]]...), []byte(" note=unquoted")...), x[loc[2]:]...)
+			}
+		case "attr-without-value":
+			if loc := reFirstStartTag.FindSubmatchIndex(x); loc != nil {
+				x = append(append(append([]byte(nil), x[:loc[2]]...), []byte(" standalone")...), x[loc[2]:]...)
+			}
+		case "bad-entity":
+			if loc := reFirstStartTag.FindSubmatchIndex(x); loc != nil && !bytes.HasSuffix(bytes.TrimSpace(x[loc[0]:loc[1]]), []byte("/>")) {
+				ins := []byte("<x:note xmlns:x=\"urn:example:note\">" + d.Param + "</x:note>")
+				k := loc[1]
+				if i := bytes.Index(x, []byte("Issuer>")); i >= 0 {
+					if j := bytes.Index(x[i+7:], []byte("Issuer>")); j >= 0 {
+						k = i + 7 + j + 7
+					}
+				}
+				x = append(append(append([]byte(nil), x[:k]...), ins...), x[k:]...)
+			}
 		}
 	}
 	tr := c.Tr
